@@ -7,6 +7,7 @@ print("| change | what it does (from its meta.json) | obligation(s) of its own p
 print("|---|---|---|---|")
 missed = []
 harmless_ok = True
+harmless_undecided = []
 for m in sorted(M):
     if not os.path.isdir(f"{V}/seeded/{m}") or m == "retired":
         continue
@@ -14,8 +15,10 @@ for m in sorted(M):
         r = M[m]
         alarms = [p for p in sorted(r) if r[p].get("exit") == 1]
         und = [f"{p}:exit{r[p]['exit']}" for p in sorted(r) if r[p].get("exit") not in (0, 1)]
-        print(f"| {m} | behaviour-preserving edits (must NOT be reported) | {'no check reports it (all exit 0)' if not alarms and not und else 'ALARM: ' + ' '.join(alarms + und)} | - |")
-        harmless_ok = harmless_ok and not alarms and not und
+        verdict = "no check reports it (all exit 0)" if not alarms and not und else ("ALARM: " + " ".join(alarms) if alarms else "no check reports it; undecided: " + " ".join(und))
+        print(f"| {m} | behaviour-preserving edits (must NOT be reported) | {verdict} | - |")
+        harmless_ok = harmless_ok and not alarms
+        harmless_undecided.extend(f"{m}/{u}" for u in und)
         continue
     own = m[:3]
     try:
@@ -33,4 +36,4 @@ for m in sorted(M):
     print(f"| {m} | {summ} | {obl} | {others}{(' (undecided/fault: ' + bad + ')') if bad else ''} |")
 print()
 n_mut = sum(1 for m in M if not m.startswith("harmless") and os.path.isdir(f"{V}/seeded/{m}"))
-print(f"{n_mut} seeded changes; reported by their own property's check (exit 1): {n_mut - len(missed)}; not reported: {missed}; harmless-edit sets raise no alarm: {harmless_ok}")
+print(f"{n_mut} seeded changes; reported by their own property's check (exit 1): {n_mut - len(missed)}; not reported: {missed}; harmless-edit sets raise no alarm: {harmless_ok}" + (f" (left undecided: {harmless_undecided})" if harmless_undecided else ""))
